@@ -1080,6 +1080,14 @@ def str_method(ex, s, name, e):
         a, b = sarg(0), sarg(1)
         ex.safe(z3.Length(a) > 0, 'Unsupported', 'replace of a non-empty needle', e)
         return V(VStr(z3.SeqRef(z3.Z3_mk_seq_replace_all(s.ctx.ref(), s.as_ast(), a.as_ast(), b.as_ast()), s.ctx)))
+    if name == 'replace' and len(args) == 3:
+        # replace(old, new, 1): the first occurrence only -- SMT-LIB str.replace
+        a, b = sarg(0), sarg(1)
+        cnt = as_val(args[2])
+        if not (static_kind(cnt) == 'VInt' and z3.is_int_value(cnt.arg(0)) and cnt.arg(0).as_long() == 1):
+            raise Unsupported('str.replace with a count other than 1')
+        ex.safe(z3.Length(a) > 0, 'Unsupported', 'replace of a non-empty needle', e)
+        return V(VStr(z3.Replace(s, a, b)))
     if name == 'lower':
         return V(VStr(z3.Function('str_lower', vl.String, vl.String)(s)))
     if name == 'isalpha':
